@@ -478,6 +478,10 @@ def run_check(prop, tier, seed):
     if not det_ok:
         harness_error("determinism self-check failed and no violation was found: " + det_msg)
     if missing:
+        if foreign and sum(foreign.values()) * 4 > tot["runs"]:
+            # most runs were cut short by violations that belong to other properties: this property is undecided
+            # on this tree (neither a pass nor a violation of it); the owning checks report them
+            harness_error("undecided: %d of %d runs were cut short by violations owned by other properties %s, so the states this check needs (%s) were never reached; run the checks that own those classes" % (sum(foreign.values()), tot["runs"], foreign, missing))
         harness_error("required probes never fired in this tier: %s (workload bug, not a pass)" % missing)
     log("OK property=%s held on everything explored" % prop)
     return 0
